@@ -148,7 +148,7 @@ def _run_unit(arg):
                 first = (case, d)
                 acc["samples"].append(_sample(mod, case, res))
             last = (case, d)
-            if acc["nfresh"] >= 25:
+            if acc["nfresh"] >= 10:
                 # enough counterexamples from this unit: stop early (the run is
                 # then reported as not exhaustive; it exits 1 anyway)
                 acc["truncated"] = True
@@ -157,7 +157,8 @@ def _run_unit(arg):
                 acc["nviol"] += len(res.violations)
                 acc["nfresh"] += sum(1 for sig, _ in res.violations if sig not in _KNOWN_SIGS)
                 if len(acc["violations"]) < 20:
-                    replay.append((case, d))
+                    if len(replay) < 3:
+                        replay.append((case, d))
                     for sig, detail in res.violations:
                         acc["violations"].append(
                             {"sig": sig, "case": case, "detail": detail}
@@ -209,7 +210,14 @@ def _watchdog(slot, res_q, limit):
         while True:
             time.sleep(1.0)
             case, t0 = _CUR
-            if case is not None and time.time() - t0 > limit:
+            lim = limit
+            f = getattr(_MOD, "CASE_TIMEOUT_FOR", None)
+            if case is not None and f is not None:
+                try:
+                    lim = f(case)
+                except Exception:
+                    lim = limit
+            if case is not None and time.time() - t0 > lim:
                 res_q.put(("hang", slot, case, time.time() - t0))
                 os._exit(3)
 
